@@ -274,3 +274,39 @@ Feature: f
   | None => False
   end.
 Proof. vm_compute. repeat split. discriminate. Qed.
+
+Require Import FlagOrigin BlankOrigin.
+
+(* The side condition of C16_trailing_whitespace, read off the text and off what the run builds.  The paired run's log is
+   the real run's log with every changed token carrying its twin (C16_paired_log); its flag can only go up when a changed
+   line is handed to the builder as free text (kind Other: a description or doc-string content line), provided no changed
+   line is a comment line and in no dialect does the step-keyword test answer differently on the two lines (lstatic).
+   Generic part FlagOrigin.v: every Other test of the regenerated table is unguarded and builds its token after
+   start_rule calls only (side conditions by vm_compute), so a flag raised by a yes to "free text?" is followed by the
+   logged build of that token. *)
+Theorem C16_paired_log : forall stop xs m b,
+  map ev_fst (log_of (paired_run stop xs m b)) = log_of (parse_tokens stop (map fst xs) m b).
+Proof. exact paired_log. Qed.
+Print Assumptions C16_paired_log.
+
+Theorem C16_trailing_whitespace_built : forall stop m b src src', wf_ms m ->
+  Forall2 lrel (py_lines src) (py_lines src') -> Forall2 lstatic (py_lines src) (py_lines src') ->
+  ~ built_changed_other (paired_run stop (pair_lines (py_lines src) (py_lines src') 1) m b) ->
+  psim (parse_source stop m b src) (parse_source stop m b src').
+Proof. exact trailing_whitespace_built. Qed.
+Print Assumptions C16_trailing_whitespace_built.
+
+Example C16_trailing_whitespace_built_sample :
+  match new_matcher Dialects.dialects (s2l "en") with
+  | Some m =>
+    forallb2 lstaticb (py_lines c16_plain) (py_lines c16_padded) = true
+    /\ no_changed_other (paired_run false (pair_lines (py_lines c16_plain) (py_lines c16_padded) 1) m (new_builder 0)) = true
+    /\ forallb2 lstaticb (py_lines c16_plain_bad) (py_lines c16_padded_bad) = true
+    /\ no_changed_other (paired_run true (pair_lines (py_lines c16_plain_bad) (py_lines c16_padded_bad) 1) m (new_builder 0)) = true
+    (* "Given" with its final blank cut off is not statically safe *)
+    /\ lstaticb (s2l "    Given
+") (s2l "    Given 
+") = false
+  | None => False
+  end.
+Proof. vm_compute. repeat split. Qed.
